@@ -329,7 +329,76 @@ pub unsafe extern "C" fn getrandom(buf: *mut c_void, len: size_t, flags: c_uint)
         c.entropy.fill(slice);
         return len as ssize_t;
     }
+    // a thread started by a simulated process (the compiler's own helper threads): its entropy
+    // is a stream derived from the parent's, so hash seeds stay a function of the run's seed
+    let served = CHILD_ENTROPY
+        .try_with(|c| {
+            let mut g = c.take();
+            let ok = if let Some(p) = g.as_mut() {
+                let slice = unsafe { std::slice::from_raw_parts_mut(buf as *mut u8, len) };
+                p.fill(slice);
+                true
+            } else {
+                false
+            };
+            c.set(g);
+            ok
+        })
+        .unwrap_or(false);
+    if served {
+        return len as ssize_t;
+    }
     unsafe { libc::syscall(libc::SYS_getrandom, buf, len, flags) as ssize_t }
+}
+
+// ------------------------------------------------------------------------------------------
+// threads started by a simulated process
+// ------------------------------------------------------------------------------------------
+
+thread_local! {
+    static CHILD_ENTROPY: Cell<Option<Prng>> = const { Cell::new(None) };
+}
+
+pub static SEEN_CHILD_THREADS: AtomicU64 = AtomicU64::new(0);
+
+struct Tramp {
+    start: extern "C" fn(*mut c_void) -> *mut c_void,
+    arg: *mut c_void,
+    seed: u64,
+}
+
+extern "C" fn child_thread_tramp(p: *mut c_void) -> *mut c_void {
+    let t = unsafe { Box::from_raw(p as *mut Tramp) };
+    let _ = CHILD_ENTROPY.try_with(|c| c.set(Some(Prng::new(t.seed))));
+    (t.start)(t.arg)
+}
+
+type PthreadCreate = unsafe extern "C" fn(*mut libc::pthread_t, *const libc::pthread_attr_t, extern "C" fn(*mut c_void) -> *mut c_void, *mut c_void) -> c_int;
+
+#[unsafe(no_mangle)]
+pub unsafe extern "C" fn pthread_create(
+    thread: *mut libc::pthread_t,
+    attr: *const libc::pthread_attr_t,
+    start: extern "C" fn(*mut c_void) -> *mut c_void,
+    arg: *mut c_void,
+) -> c_int {
+    static REAL: std::sync::OnceLock<usize> = std::sync::OnceLock::new();
+    let real = *REAL.get_or_init(|| unsafe { libc::dlsym(libc::RTLD_NEXT, c"pthread_create".as_ptr()) as usize });
+    if real == 0 {
+        return libc::EAGAIN;
+    }
+    let real: PthreadCreate = unsafe { std::mem::transmute(real) };
+    if let Some(c) = ctx() {
+        SEEN_CHILD_THREADS.fetch_add(1, Ordering::Relaxed);
+        let seed = c.entropy.next_u64();
+        let boxed = Box::into_raw(Box::new(Tramp { start, arg, seed }));
+        let r = unsafe { real(thread, attr, child_thread_tramp, boxed as *mut c_void) };
+        if r != 0 {
+            drop(unsafe { Box::from_raw(boxed) });
+        }
+        return r;
+    }
+    unsafe { real(thread, attr, start, arg) }
 }
 
 // ------------------------------------------------------------------------------------------
